@@ -54,11 +54,17 @@ def run(tier, replay_path=None):
         if not v["exact"]:
             drift += 1
             if drift <= 5: V.note("DRIFT: C11 expansion differs from the modelled token loop for %r" % r["tpl"])
+    # second half of the property: inject_parameters(build) = to_string for the statements of the C01/C02 exploration
+    import stmtpipe
+    sf, snotes, sst = stmtpipe.collect("C11", tier, None, ["C11/"], os.path.join(wd, "stmts"), rng) if not replay_path else ([], [], {"n": 0, "states": 0, "transitions": 0})
+    for k, rec in sf:
+        V.fail(k.replace("C11/", "C11/stmt/"), rec)
+    states += sst.get("states", 0); gen += sst.get("transitions", 0)
     cov = {"states": max(states, 1), "transitions": max(gen, 1), "traces_validated_against_impl": len(verdicts),
            "evaluations": len(verdicts) * 3, "distinct_nontrivial": nontriv,
            "rule": "templates = every concatenation of <= %d items from {word, digits, space, operators, quoted literal / identifiers with embedded marks and doubled quotes, ?, ??, $, $$, $1, $2, $3, (, comma, backslash, _} (TLC; invariant: modelled token loop = TemplateAbs inside the domain) + random templates with Unicode and edge items; each with up to 3 values through cust_with_values on 3 backends, inline + parameterised + inject_parameters; non-trivial = template has a placeholder in the domain" % (3 if tier == "quick" else 4),
            "samples": [{"tpl": r["tpl"], "vals": r["vals"], "pg": r["obs"]["pg"]} for r in recs[:: max(1, len(recs) // 3)][:3]],
-           "model_level_counterexamples": mvs, "backend_cases_outside_domain": ood, "impl_model_exact": drift == 0, "drift": drift}
+           "statements_checked_for_inject": sst["n"], "model_level_counterexamples": mvs, "backend_cases_outside_domain": ood, "impl_model_exact": drift == 0, "drift": drift}
     return std_finish(pid, tier, t0, V, cov,
                       ["domain: designated value exists; on PostgreSQL a `$` glued to a preceding word character, or `$n` glued to a following word character, is engine-lexer dependent and outside the domain",
                        "inject_parameters is not checked on statements whose SQL contains a literal mark produced by a doubled mark (`??`, `$$`): such SQL is ambiguous by construction"])
